@@ -279,6 +279,18 @@ fn nul_anchor_facts(f: Fail, pat: &PatCfg, hir: &Hir, fails_without_term: bool) 
     }
 }
 
+/// The shape of the known finding `crlf-start-anchor-after-trailing-cr`: LF terminator, the line ends in a
+/// carriage return, the pattern holds a CRLF-aware start-of-line assertion, and no match lies within the
+/// line once it is followed by its terminator (between `\r` and `\n` that assertion is false, after a
+/// final `\r` it is true).
+fn crlf_anchor_shape(m: &RegexMatcher, pat: &PatCfg, hir: &Hir, w: &[u8]) -> bool {
+    pat.term == Term::Lf && w.last() == Some(&b'\r') && hir.properties().look_set().contains(regex_syntax::hir::Look::StartCRLF) && {
+        let mut wt = w.to_vec();
+        wt.push(b'\n');
+        !all_matches(m, &wt).iter().any(|(_, e)| *e <= w.len())
+    }
+}
+
 fn candidate_none(m: &RegexMatcher, hay: &[u8]) -> bool {
     matches!(m.find_candidate_line(hay), Ok(None))
 }
@@ -482,7 +494,9 @@ pub fn check(case: &Case) -> Verdict {
             let mut with_term = w.clone();
             with_term.push(pat.term.byte());
             if candidate_none(&m, &w) || (advertised.is_some() && candidate_none(&m, &with_term)) {
-                return Verdict::Fail(nul_anchor_facts(
+                let crlf_shape = !candidate_none(&m, &w) && crlf_anchor_shape(&m, pat, &h_hir, &w);
+                let crlf_fact = |f: Fail| if crlf_shape { f.fact("in-context").fact("crlf-start-anchor-after-trailing-cr") } else { f };
+                return Verdict::Fail(crlf_fact(nul_anchor_facts(
                     Fail::new(format!(
                         "claim 3 violated (sampled line): is_match({:?}) but find_candidate_line finds nothing in the line {} its terminator\n{}",
                         Bs(w.clone()),
@@ -493,7 +507,7 @@ pub fn check(case: &Case) -> Verdict {
                     pat,
                     &h_hir,
                     candidate_none(&m, &w),
-                ));
+                )));
             }
         }
     }
@@ -532,7 +546,9 @@ pub fn check(case: &Case) -> Verdict {
                 pos = buf[at.min(buf.len())..].iter().position(|b| *b == tbyte).map_or(buf.len() + 1, |k| at + k + 1);
             }
             if !offered {
-                return Verdict::Fail(nul_anchor_facts(
+                let crlf_shape = crlf_anchor_shape(&m, pat, &h_hir, &w);
+                let crlf_fact = |f: Fail| if crlf_shape { f.fact("crlf-start-anchor-after-trailing-cr") } else { f };
+                return Verdict::Fail(crlf_fact(nul_anchor_facts(
                     Fail::new(format!(
                         "claim 3 violated (in context): the matcher advertises its line terminator and is_match({:?}) holds, but a candidate search over the buffer {:?} (restarted after each offered line) never offers that line\n{}",
                         Bs(w.clone()),
@@ -544,7 +560,7 @@ pub fn check(case: &Case) -> Verdict {
                     pat,
                     &h_hir,
                     false,
-                ));
+                )));
             }
             info.class("claim3_in_context_checked");
         }
